@@ -931,6 +931,20 @@ def b_frozenset(interp, args, kwargs, node):
     raise Unsupported(f"frozenset of {type(r).__name__}")
 
 
+def b_divmod(interp, args, kwargs, node):
+    """divmod(a, b) = (a // b, a % b) with Python's floor semantics (concrete numbers)"""
+    a, b = args
+    if isinstance(a, bool):
+        a = int(a)
+    if isinstance(b, bool):
+        b = int(b)
+    if isinstance(a, int) and isinstance(b, int):
+        if b == 0:
+            raise Raised('ZeroDivisionError', getattr(node, 'lineno', None), 'integer division or modulo by zero', implicit=True)
+        return divmod(a, b)
+    raise Unsupported("divmod of non-integer / symbolic operands")
+
+
 def b_zip(interp, args, kwargs, node):
     lists = [iterate(interp, a, node) for a in args]
     return [tuple(x) for x in zip(*lists)]
@@ -1198,7 +1212,7 @@ def call_type(interp, T, args, kwargs, node):
 
 
 BUILTINS = {
-    'isinstance': b_isinstance, 'len': b_len, 'abs': b_abs, 'next': b_next, 'round': b_round, 'sum': b_sum, 'max': b_max,
+    'divmod': b_divmod, 'isinstance': b_isinstance, 'len': b_len, 'abs': b_abs, 'next': b_next, 'round': b_round, 'sum': b_sum, 'max': b_max,
     'min': b_min, 'any': b_any, 'all': b_all, 'zip': b_zip, 'enumerate': b_enumerate, 'map': b_map, 'range': b_range,
     'reversed': b_reversed, 'deepcopy': b_deepcopy, 'copy': b_copy, 'print': b_print, 'chr': b_chr, 'ord': b_ord,
     'hash': b_hash, 'sorted': b_sorted, 'cache': b_identity_decorator,
